@@ -90,6 +90,9 @@ func oC11Final(ix *Index) []Violation {
 	}
 	if !ackFault {
 		for q, u := range ix.Final.AdUnacked {
+			if q == 0 {
+				u -= len(ix.C.Cfg.PreBad) // undecodable entries stay delivered and unacknowledged
+			}
 			if u > 0 {
 				out = append(out, v("C11", "not-acked", "at rest queue %d still has %d delivered but unacknowledged items although no acknowledgement was refused", q, u))
 			}
@@ -163,6 +166,16 @@ func genC11(t *rapid.T, th bool) *c11Plan {
 			ctrl = append(ctrl, Op{Op: "yield"})
 		}
 		c.Clients[0] = append(ctrl, Op{Op: "cancelctx"})
+	}
+	// entries the worker cannot turn into a job (foreign producers, damaged entries) among valid stored
+	// ones: they are reported and skipped, never acknowledged, and survive a crash like any other item
+	if rapid.IntRange(0, 3).Draw(t, "withbad") == 0 {
+		for i := 0; i < rapid.IntRange(1, 2).Draw(t, "npre"); i++ {
+			c.Cfg.PreItems = append(c.Cfg.PreItems, Item{N: 9000 + i, ID: "pre" + itoa(i)})
+		}
+		for i := 0; i < rapid.IntRange(1, 2).Draw(t, "nbad"); i++ {
+			c.Cfg.PreBad = append(c.Cfg.PreBad, BadEnt{Pos: rapid.IntRange(0, len(c.Cfg.PreItems)).Draw(t, "badpos"), Kind: pick(t, "badkind", []int{0, 1, 2, 3, 4, 5})})
+		}
 	}
 	// one job whose worker function never returns (runtime.Goexit): it must stay unacknowledged
 	if rapid.IntRange(0, 5).Draw(t, "withgoexit") == 0 {
@@ -275,7 +288,7 @@ func c11Body(t failer, plan *c11Plan, st *Stats, spec *Spec) {
 			}
 			for _, it := range rec {
 				n := jobOfItem(it.val)
-				if seen[n] == 0 {
+				if n >= 0 && seen[n] == 0 {
 					rvs = append(rvs, v("C11", "recovery-not-drained", "after a crash at adapter call %d the recovered adapter held job %d, but a fresh worker bound to it never processed it (final %+v)", k, n, *rix.Final))
 				}
 			}
